@@ -609,6 +609,14 @@ fn check_list(c: &mut Case, model: &[String], k: usize, o: &Opts) {
             c.fail("lend", "panic", &m, &format!("lend() panicked; {}", ctx_at(model, k, 0)));
         }
     }
+    // the iterators through the skipping adaptors (nth, skip, step_by, ...)
+    if n > 0 && n <= 600 && c.rng().random_range(0..4u32) == 0 {
+        let tr = || ctx_at(model, k, 0);
+        c.iter_protocol("iter_adaptors", || l.iter(), model, &tr);
+        let j = c.rng().random_range(0..n);
+        let trj = || format!("iter_from({}); {}", j, ctx_at(model, k, j));
+        c.iter_protocol("iter_from_adaptors", || l.iter_from(j), &model[j..], &trj);
+    }
     if let Err(m) = catch(|| {
         check_lend_from(c, "into_lender", "(&list).into_lender()", l.into_lender(), model, k, 0, usize::MAX);
     }) {
